@@ -6,11 +6,17 @@
 #include "spec/utf8.h"
 
 /* ghost "reference run": the RFC 3629 automaton advanced once per DFA step, over the bytes of g_u_src in order */
+struct verif_utf8_ghost {
+  size_t calls;   /* bytes consumed so far */
+  size_t count;   /* scalar values completed so far */
+  unsigned state; /* enum spec_utf8_state */
+};
+extern struct verif_utf8_ghost g_u;
 extern const unsigned char *g_u_src;
 extern size_t g_u_len;
-extern size_t g_u_calls;   /* bytes consumed so far */
-extern size_t g_u_count;   /* scalar values completed so far */
-extern unsigned g_u_state; /* enum spec_utf8_state */
+#define g_u_calls g_u.calls
+#define g_u_count g_u.count
+#define g_u_state g_u.state
 
 /* the step function of the DFA is the step function of the RFC 3629 automaton (bisimulation, identity on states) */
 #define UNICODE_DECODE_STEP                                                                     \
@@ -29,7 +35,7 @@ __CPROVER_assigns(*state, *codep);
 uint32_t _cbor_unicode_decode__ghost(uint32_t *state, uint32_t *codep, uint32_t byte)
 UNICODE_DECODE_STEP
 __CPROVER_requires(g_u_calls < g_u_len && byte == g_u_src[g_u_calls] && *state == g_u_state)
-__CPROVER_assigns(*state, *codep, g_u_calls, g_u_count, g_u_state)
+__CPROVER_assigns(*state, *codep, g_u)
 __CPROVER_ensures(g_u_state == *state && g_u_calls == __CPROVER_old(g_u_calls) + 1)
 __CPROVER_ensures(g_u_count == __CPROVER_old(g_u_count) + (*state == U_START ? 1 : 0));
 
@@ -37,7 +43,7 @@ size_t _cbor_unicode_codepoint_count(cbor_data source, size_t source_length, str
 __CPROVER_requires(source_length <= VERIF_MAXOBJ && __CPROVER_r_ok(source, source_length))
 __CPROVER_requires(__CPROVER_w_ok(status, sizeof(*status)))
 __CPROVER_requires(g_u_src == source && g_u_len == source_length && g_u_calls == 0 && g_u_count == 0 && g_u_state == U_START)
-__CPROVER_assigns(*status, g_u_calls, g_u_count, g_u_state)
+__CPROVER_assigns(*status, g_u)
 /* the reference run consumed the whole buffer, or stopped in the absorbing reject state */
 __CPROVER_ensures(g_u_state == U_REJECT || g_u_calls == source_length)
 /* valid <=> the reference run ends at a scalar boundary: exact count, status OK */
